@@ -13,7 +13,7 @@ import vcommon as vc
 
 warnings.filterwarnings('ignore')
 
-GEN_TARGETS = ()
+GEN_TARGETS = ('GaussCond',)
 DRIVER_MAIN = 'Main/GaussCond.lean'
 DRIVER_TARGETS = ['CopVerif.Driver.GaussCond']
 ALWAYS_SEARCH = True
